@@ -42,13 +42,36 @@ def gen_cases(ctx, rng, count):
         r = rng.random()
         d = rng.choice([1, 2, 2, 3, 3, 4, 5])
         g = F.Gen(rng, VARS, F.ALL_DISCRETE_OFFLINE, max_bound=rng.choice([2, 4, 4, 6]))
-        if r < 0.75:
+        if r < 0.12:
+            # one variable read directly (no predicate in between) by two temporal operators: what the first one does with the
+            # list of the variable must not be seen by the second one; traces often shorter than the bounds
+            x = ("v", rng.choice(VARS))
+
+            def top():
+                k = rng.choice(["t1", "tb1", "tb1", "t2", "tb2"])
+                a = rng.randint(0, 3)
+                b = a + rng.randint(0, 4)
+                y = x if rng.random() < 0.7 else g.formula(1)
+                if k == "t1":
+                    return ("t1", rng.choice(["once", "hist", "ev", "alw", "prev", "next", "sprev", "snext"]), x)
+                if k == "tb1":
+                    return ("tb1", rng.choice(["once", "hist", "ev", "alw"]), a, b, x)
+                if k == "t2":
+                    return ("t2", rng.choice(["since", "until"]), x, y) if rng.random() < 0.5 else ("t2", rng.choice(["since", "until"]), y, x)
+                return ("tb2", rng.choice(["since", "until"]), a, b, x, y) if rng.random() < 0.5 else ("tb2", rng.choice(["since", "until"]), a, b, y, x)
+            f = ("b", rng.choice(["and", "or", "implies"]), top(), top())
+            if rng.random() < 0.3:
+                f = ("b", rng.choice(["and", "or", "implies"]), f, top())
+            stream = "shared-variable"
+        elif r < 0.75:
             f = g.formula(d)
             stream = "typed"
         else:
             f = g.untyped(min(d, 4))
             stream = "untyped"
-        if rng.random() < 0.15:
+        if stream == "shared-variable":
+            n = rng.randint(1, 6)
+        elif rng.random() < 0.15:
             n = 1
             stream += "/n=1"
         elif rng.random() < 0.2:
